@@ -43,6 +43,14 @@ def _divide_and_round(a: float, b: float) -> int:
     return q
 
 
+def _to_microseconds(delta: timedelta) -> int:
+    """total length of a Duration or of a native timedelta in microseconds"""
+    if isinstance(delta, Duration):
+        return delta._to_microseconds()
+
+    return (delta.days * (24 * 3600) + delta.seconds) * 1000000 + delta.microseconds
+
+
 class Duration(timedelta):
     """
     Replacement for the standard timedelta class.
@@ -388,9 +396,7 @@ class Duration(timedelta):
 
         usec = self._to_microseconds()
         if isinstance(other, timedelta):
-            return cast(
-                int, usec // other._to_microseconds()  # type: ignore[attr-defined]
-            )
+            return cast(int, usec // _to_microseconds(other))
 
         if isinstance(other, int):
             return self.__class__(
@@ -415,9 +421,7 @@ class Duration(timedelta):
 
         usec = self._to_microseconds()
         if isinstance(other, timedelta):
-            return cast(
-                float, usec / other._to_microseconds()  # type: ignore[attr-defined]
-            )
+            return cast(float, usec / _to_microseconds(other))
 
         if isinstance(other, int):
             return self.__class__(
@@ -443,7 +447,7 @@ class Duration(timedelta):
 
     def __mod__(self, other: timedelta) -> Self:
         if isinstance(other, timedelta):
-            r = self._to_microseconds() % other._to_microseconds()  # type: ignore[attr-defined] # noqa: E501
+            r = self._to_microseconds() % _to_microseconds(other)
 
             return self.__class__(0, 0, r)
 
@@ -451,10 +455,7 @@ class Duration(timedelta):
 
     def __divmod__(self, other: timedelta) -> tuple[int, Duration]:
         if isinstance(other, timedelta):
-            q, r = divmod(
-                self._to_microseconds(),
-                other._to_microseconds(),  # type: ignore[attr-defined]
-            )
+            q, r = divmod(self._to_microseconds(), _to_microseconds(other))
 
             return q, self.__class__(0, 0, r)
 
